@@ -13,7 +13,6 @@ import (
 	"net/http/httptest"
 	"os"
 	"path/filepath"
-	"runtime"
 	"sort"
 	"strings"
 	"sync"
@@ -259,18 +258,7 @@ type workerTag struct {
 }
 
 // goid returns the current goroutine's id (simulation only).
-func goid() uint64 {
-	var buf [64]byte
-	n := runtime.Stack(buf[:], false)
-	var id uint64
-	for _, c := range buf[len("goroutine "):n] {
-		if c < '0' || c > '9' {
-			break
-		}
-		id = id*10 + uint64(c-'0')
-	}
-	return id
-}
+func goid() uint64 { return runtimeGoidFn() }
 
 // MarkAsync tags the calling goroutine: holds whose Match is "@async" apply only to tagged goroutines.
 func (w *World) MarkAsync(on bool) {
@@ -338,7 +326,10 @@ func (w *World) hookYield(site string, args ...any) {
 			w.lockCount[name] = n + 1
 			free := w.lockDepth[g] == 0 && g != w.DriverG
 			for _, h := range w.Plan.Holds {
-				if free && h.Site == "auto.lock" && h.Match == name && h.Nth == n {
+				if free && h.Site == "auto.lock" && h.Match == name && (h.Nth == n || h.Nth < 0) {
+					if now := w.H.now(); h.To > 0 && (now < h.From || now >= h.To) {
+						continue
+					}
 					delay = h.Delay
 				}
 			}
@@ -545,9 +536,7 @@ func (w *World) Reload(i, cfgIdx int) error {
 	if err := os.WriteFile(in.CfgFile, []byte(cfg.YAML(in.Name)), 0o644); err != nil {
 		return err
 	}
-	done := w.quiesce()
 	err := in.App.Reload()
-	done()
 	if err != nil {
 		w.H.AddEvent("reload-rejected", in.Name, fmt.Sprintf("cfg=%d", cfgIdx))
 		w.H.Fire("reload-rejected")
@@ -922,6 +911,7 @@ func (ww *webhookWorld) ServeHTTP(rw http.ResponseWriter, r *http.Request) {
 	case "hang":
 		w.H.addNotif(n)
 		<-r.Context().Done()
+		n.Done = w.H.now() // the instant the sender gave up (its own time-out or the flush deadline)
 		panic(http.ErrAbortHandler)
 	case "reset":
 		w.H.addNotif(n)
@@ -934,6 +924,7 @@ func (ww *webhookWorld) ServeHTTP(rw http.ResponseWriter, r *http.Request) {
 			n.Outcome = "2xx"
 		case <-r.Context().Done():
 			n.Outcome = "late"
+			n.Done = w.H.now()
 			w.H.addNotif(n)
 			panic(http.ErrAbortHandler)
 		}
